@@ -340,7 +340,13 @@ func (i *impl) exec(op string) string {
 		if i.isDead() {
 			return "ok"
 		}
-		i.cur().in <- lp.UnHex(w[1])
+		cu := i.cur()
+		cu.in <- lp.UnHex(w[1])
+		// the message has arrived at the wrapper, not merely at the socket: wait until its read loop has taken it over. (What
+		// still sits unread in a connection's receive buffer when that connection is replaced is lost with it - by nature, and
+		// whether the read loop got to it first would otherwise depend on scheduling.)
+		for t := time.Now(); time.Since(t) < 300*time.Millisecond && len(cu.in) > 0; time.Sleep(50 * time.Microsecond) {
+		}
 		return "ok"
 	case "ping":
 		if i.isDead() {
